@@ -2,6 +2,9 @@
 """Regenerates MANIFEST.json from the table below (kept in one place so it stays valid)."""
 import json, subprocess
 CHECKS = {
+ "C10": dict(level="exploration", tech="step-wise reference-model oracle on a real node store with small capacity: gate-controlled acknowledgements, index/distance-index snapshots through guarded hooks, independent SHA-256/XOR metric, quote inspection via the real GetLocalQuotingMetrics handler",
+             text="Random histories of puts at chosen distances, bursts of unacknowledged writes, overwrites, range updates, clean-ups, payments and quiesced restarts; every put decision at capacity, every eviction, every refusal, the retained count after every step, the quoted figures and the index invariants at quiescent points are judged. Two structural defects are recorded as known findings with fine-grained signatures.",
+             note="Capacity decisions judged only with nothing in flight; overshoot is classified as the known finding only up to the number of puts the harness saw accepted while logically full.", ref="DESIGN.md §4 C10"),
  "C02": dict(level="exploration", tech="crash-point + torn-file injection on a real node store with gate-controlled disk tasks, followed by real restarts (NetworkBuilder::build_node, same identity) judged by a history oracle",
              text="Random histories are crashed at random scheduler steps (arbitrary causally closed subsets of completed disk tasks); for an incomplete write the real ciphertext is cut at every byte prefix (<= 1 KiB) or at boundary + random cuts, and the node is really restarted over each variant; served bytes, durability of completed writes/removals, listing and index consistency are judged.",
              note="Crash granularity is the scheduler step; a write in progress is modelled as truncate + arbitrary ciphertext prefix; harness links ant-node with default features (shipped configuration).", ref="DESIGN.md §4 C02"),
